@@ -131,6 +131,7 @@ func (p *Parser) Reset() {
 	p.ctx = nil
 	p.positions = nil
 	p.strict = false
+	p.dialect = ""
 }
 
 // currentLocation returns the source location of the current token.
@@ -281,6 +282,7 @@ type Parser struct {
 // Thread Safety: NOT thread-safe - use separate parser instances per goroutine.
 func (p *Parser) Parse(tokens []token.Token) (*ast.AST, error) {
 	p.tokens = tokens
+	p.positions = nil // no position table for this token stream (one from an earlier ParseWithPositions must not be used)
 	p.currentPos = 0
 	if len(tokens) > 0 {
 		p.currentToken = tokens[0]
@@ -546,6 +548,7 @@ func (p *Parser) ParseContext(ctx context.Context, tokens []token.Token) (*ast.A
 	defer func() { p.ctx = nil }() // Clear context when done
 
 	p.tokens = tokens
+	p.positions = nil // see Parse
 	p.currentPos = 0
 	if len(tokens) > 0 {
 		p.currentToken = tokens[0]
